@@ -26,7 +26,7 @@ ASSUMPTIONS = [
     "ValueError for unknown ids / undecodable values is documented behaviour and not a network failure",
 ]
 MUST = ["damaged_frames_not_a_refusal", "os_error_on_send", "os_error_on_receive", "idle_error_keepalive", "tcp_connect_failure", "cfc_checked",
-        "cfc_after_rejection", "api_calls_under_fault", "ident_payloads", "discover_payloads", "failed_exception_seen",
+        "cfc_after_rejection", "cfc_checked_overlapping_calls", "api_calls_under_fault", "ident_payloads", "discover_payloads", "failed_exception_seen",
         "rejected_exception_seen"]
 EXHAUSTIVE = {"quick": False, "thorough": False}
 OK_TYPES = ("ok", "RequestFailedException", "RequestRejectedException")
@@ -189,6 +189,48 @@ def run_b(sc, part):
     if part.evaluations % 397 == 1:
         part.sample({"part": "B", "transport": tag, "history": sc["hist"],
                      "outcomes": [(c["outcome"], c.get("cfc")) for c in run.calls]})
+    return vs
+
+
+def scenario_b_overlap(transport, ka, T, R, hist_a, hist_b, start_b):
+    """two tasks use ONE inverter object at the same time; the count is judged in the order in which the requests ended"""
+    sc = scenario_b(transport, ka, T, R, list(hist_a) + list(hist_b))
+    steps = sc["tasks"][0]["steps"]
+    sc["tasks"] = [{"start": 0.0, "steps": steps[:len(hist_a)]}, {"start": start_b, "steps": steps[len(hist_a):]}]
+    sc["hist"] = f"{hist_a}|{hist_b}@{start_b}"
+    sc["overlap"] = True
+    return sc
+
+
+def run_b_overlap(sc, part):
+    run = engine.run_scenario(sc, quiesce=False)
+    part.evaluations += 1
+    tag = sc["transport"]
+    vs = check_types(tag, run, part)
+    ret_at = {e[2]: i for i, e in enumerate(run.events) if e[1] == "ret"}
+    calls = sorted(run.calls, key=lambda c: ret_at.get(c["id"], 1 << 30))
+    failed = rejected = 0
+    overlapped = len({c["task"] for c in run.calls}) > 1 and any(a["task"] != b["task"] and a["t0"] < b["t1"] and b["t0"] < a["t1"]
+                                                                 for a in run.calls for b in run.calls)
+    for rec in calls:
+        o = rec["outcome"]
+        if o == "ok":
+            failed = rejected = 0
+        elif o == "RequestRejectedException":
+            rejected += 1
+        elif o == "RequestFailedException":
+            failed += 1
+            cfc = rec.get("cfc")
+            if overlapped:
+                part.count("cfc_checked_overlapping_calls")
+            if cfc is None or not (failed <= cfc <= failed + rejected):
+                vs.append((f"C09/{tag}/consecutive-failures-count",
+                           f"two tasks on one inverter ({sc['hist']}): in order of completion {[(c['task'], c['outcome'], c.get('cfc')) for c in calls]}: "
+                           f"a failure reported consecutive_failures_count={cfc}, expected {failed}" + (f"..{failed + rejected}" if rejected else "")))
+                break
+    part.see(repr(("Bo", tag, sc["keep_alive"], sc["R"], sc["hist"])))
+    for key, msg in vs:
+        part.violate(key, msg, {"part": "Bo", "scenario": sc, "calls": run.calls})
     return vs
 
 
@@ -415,6 +457,12 @@ def run_shard(spec):
                 if L > 6 and hash(hist) % 3:
                     continue
                 run_b(scenario_b(spec["transport"], spec["ka"], 1, R, hist), part)
+        # the same histories issued by two tasks at once on the one inverter object
+        for la in (1, 2, 3):
+            for ha in itertools.product("SFJ", repeat=la):
+                for hb in itertools.product("SFJ", repeat=2):
+                    for start_b in (0.0, 0.5, 1.5):
+                        run_b_overlap(scenario_b_overlap(spec["transport"], spec["ka"], 1, R, "".join(ha), "".join(hb), start_b), part)
     elif p == "C":
         for mode in FAULT_MODES:
             for ka in (False, True):
@@ -440,6 +488,8 @@ def replay(case):
         vs = run_a(case["scenario"], part)
     elif p == "B":
         vs = run_b(case["scenario"], part)
+    elif p == "Bo":
+        vs = run_b_overlap(case["scenario"], part)
     elif p == "C":
         vs = run_c(case["case"], part)
     else:
